@@ -16,8 +16,10 @@ from dataclasses import dataclass, field
 from pathlib import Path
 
 ROOT = Path(__file__).resolve().parent.parent
-EVIDENCE_DIR = ROOT / "evidence"
-REPLAY_DIR = ROOT / "replays"
+# KV_EVIDENCE_DIR / KV_REPLAY_DIR: sensitivity runs against a snapshot (tools/mutate.py) write elsewhere, so that they never
+# touch the evidence of the registered commands
+EVIDENCE_DIR = Path(os.environ.get("KV_EVIDENCE_DIR") or ROOT / "evidence")
+REPLAY_DIR = Path(os.environ.get("KV_REPLAY_DIR") or ROOT / "replays")
 CORPUS_DIR = ROOT / "corpus"
 KNOWN_FINDINGS = ROOT / "known_findings.json"
 NPROC = int(os.environ.get("KV_NPROC", "16"))
